@@ -14,6 +14,18 @@ CHECKS = {
    note="Trusted: as C02. Interpretations fixed in DESIGN C06 ('replace' baseline = zero-substituted vector; status after an exception under a non-'raise' policy unspecified). Scripted models; natural faults of parser-built equations are a separate sub-check."),
 }
 
+CHECKS.update({
+ 'C05': dict(cat='model_checking', ref='4/C05', tech='symbolic execution of SolverMixin.solve/iter_periods/solve_period and the period locators with z3 proxies (symbolic span labels, start/end, per-period values and faults), joint-path comparison with a twin driven by single-period solves',
+   text='Bounded symbolic model checking of multi-period solve(): for span types list/range/ndarray/str (length 0..3, 4 thorough) every joint path of solve() and of an explicit loop of solve_t calls over the range computed from the statement is explored, with start/end and list/ndarray labels as unconstrained integers (present, repeated or absent), every Float64 value and a symbolic fault kind per period and pass; the return triple, call order, statuses, iterations and every cell must agree, periods never attempted must be bit-identical to the start.',
+   note='Trusted: as C02 plus the first-match reading of explicit labels on list spans with repeated labels (distinct labels assumed for ndarray spans with explicit labels, where the locator itself refuses duplicates). pandas spans outside the claim.'),
+ 'C08': dict(cat='model_checking', ref='4/C08', tech='symbolic execution of BaseLinker.__init__/solve_t/evaluate_t with z3 proxies, joint-path comparison against a reference written from the statement and against the bare-model twin (wrapper law)',
+   text='Bounded symbolic model checking of the linker: 1..2 (3 thorough) scripted submodels, 0..1 linker check variables, every ordered sub-selection and unknown ids, max_iter 0..2 (3), symbolic finite values per iteration, any tol, symbolic min_iter and offset; call order, convergence verdict, statuses and iteration counts on linker and submodels, untouched unselected submodels, KeyError/IndexError/InitialisationError, LAGS/LEADS maxima over symbolic integers and the single-model wrapper law are decided per joint path.',
+   note='Trusted: as C02; stand-in also installed for fsic.core.linkers.np. Finite data and min_iter <= max_iter assumed (the linker has no errors policy and solve_t does not validate min_iter; the statement presumes both).'),
+ 'C17': dict(cat='model_checking', ref='4/C17', tech='symbolic twin execution (TracerMixin model with trace=..., plain model, tracer with tracing off) on the C02/C06 harness; z3 equality of cells and of trace snapshots per joint path',
+   text='Bounded symbolic model checking that tracing is observationally neutral and faithful: for every configuration of the C06 lattice (max_iter<=2/3, faults, policies) and trace in {True, [name], name}, entry solve_t/solve_period, every joint path of traced, untraced and trace-off runs has identical outcome/status/iterations/cells, the trace labels are start, before, 0, 1..k[, end] and snapshot j is z3-equal to the values after pass j; no trace is written elsewhere or with tracing off.',
+   note='Trusted: as C06; Trace.append/np.hstack run for real on object arrays. Repeated solves, reset=True and multi-period solve() with tracing are outside the claim.'),
+})
+
 NOT_APPLICABLE = [
  ('C11', 'Independence of copies is a statement about object identity in the CPython heap; there is no input value to make symbolic, so a solver has nothing to decide (pointer-rich heaps are a weak target of the technique).'),
  ('C13', "Quantifies over strings only; everything it depends on sits behind CPython's re engine (look-ahead, \\b, lazy quantifiers, alternative priority), str.format and exec, none of which can be executed symbolically here (z3 regex theory lacks them; CrossHair's regex model is unsound on term_re and times out on split_equations)."),
